@@ -26,6 +26,7 @@ type PNode struct {
 	Default string   // default flow id (xor/incl/task)
 	Results []string // declared result names (tasks)
 	Inner   string   // extra inner XML (event definitions, extension elements ...)
+	Ext     string   // extra XML inside this node's own <extensionElements> (next to the declared results)
 	Attrs   string   // extra attributes
 	Sub     *Prog    // sub-process body
 }
@@ -80,12 +81,16 @@ func (p *Prog) body(sb *strings.Builder) {
 			sb.WriteString(" " + n.Attrs)
 		}
 		sb.WriteString(">")
-		if len(n.Results) > 0 {
-			sb.WriteString("<bpmn:extensionElements><olive:results>")
-			for _, r := range n.Results {
-				fmt.Fprintf(sb, "<olive:field name=\"%s\" type=\"boolean\"/>", r)
+		if len(n.Results) > 0 || n.Ext != "" {
+			sb.WriteString("<bpmn:extensionElements>" + n.Ext)
+			if len(n.Results) > 0 {
+				sb.WriteString("<olive:results>")
+				for _, r := range n.Results {
+					fmt.Fprintf(sb, "<olive:field name=\"%s\" type=\"boolean\"/>", r)
+				}
+				sb.WriteString("</olive:results>")
 			}
-			sb.WriteString("</olive:results></bpmn:extensionElements>")
+			sb.WriteString("</bpmn:extensionElements>")
 		}
 		for _, f := range p.Flows {
 			if f.Dst == n.ID {
